@@ -32,7 +32,8 @@ ASSUMPTIONS = ["caches that are not settings are excluded from the snapshot: Mod
 REQUIRED_COUNTERS = ["observations", "snapshots_compared", "snapshot_leaves", "standalone_exposures",
                      "entries_vs_standalone", "permutation_pairs", "subset_pairs", "persistence_cases",
                      "preloaded_cases", "dask_cases", "readout_sweeps", "calibrations",
-                     "calibration_champion_vs_standalone", "sequential_list_cases", "seeded_thread_observations"]
+                     "calibration_champion_vs_standalone", "sequential_list_cases", "seeded_thread_observations",
+                     "second_calls_after_config_edit", "type_changing_sweeps_seq", "type_changing_sweeps_dask"]
 TIMEOUT = {"quick": 900, "thorough": 3600}
 LEVEL_TEXT = ("Exploration by runtime monitoring: hostile stateful models are swept by the real Observation; the caller's "
               "objects are snapshotted structurally before and after; every labelled entry is compared bucket by bucket "
@@ -61,6 +62,15 @@ def append_arg(detector, lst=None, k=0.0, cfg=None, **kw):
     detector.photon.array = arr
 
 
+def adc_image(detector, seed=0, **kw):
+    """Digitised image whose unsigned type follows detector.characteristics.adc_bit_resolution (as simple_adc does);
+    content: the full range of that type."""
+    from vf.probes import gen_array
+    bits = int(detector.characteristics.adc_bit_resolution)
+    dt = "uint8" if bits <= 8 else ("uint16" if bits <= 16 else "uint32")
+    detector.image.array = gen_array(detector.geometry.shape, dt, (int(seed), int(detector.pipeline_count), 5))
+
+
 def counter(detector, **kw):
     """Hostile: keeps a call counter as state on the detector object; writes it into the signal bucket."""
     n = getattr(detector, "_vf_counter", 0) + 1
@@ -80,24 +90,31 @@ def gen_case(rng):
     values = sorted(rng.sample([0.5, 1.5, 2.0, 3.25, 4.0, 7.5, 11.0], rng.randint(2, 4)))
     rng.shuffle(values)
     temps = rng.sample([100.0, 200.0, 300.0], 2) if rng.random() < 0.4 else None
-    return {"kind": kind, "persistence": persistence, "n_steps": n_steps, "values": values, "temps": temps,
+    second = "temperature"
+    if rng.random() < 0.3:
+        # a swept detector setting that changes the *type* of a bucket: the ADC resolution (uint8/uint16/uint32 image)
+        second, temps = "adc_bit_resolution", rng.sample([8, 16, 32], rng.randint(2, 3))
+    return {"second": second, "kind": kind, "persistence": persistence, "n_steps": n_steps, "values": values, "temps": temps,
             "non_destructive": rng.random() < 0.6, "preload": rng.random() < 0.6, "dask": rng.random() < 0.5,
             "seed": rng.randint(0, 999), "rows": rng.randint(2, 3), "cols": rng.randint(2, 4)}
 
 
-def pipeline_spec(case, k=None):
+SECOND = {"temperature": "detector.environment.temperature",
+          "adc_bit_resolution": "detector.characteristics.adc_bit_resolution"}
+
+
+def pipeline_spec(case, k=None, lst=None):
     """k=None: the caller's pipeline (k at its configured value 1.0); else value baked in."""
     pspec = {
         "photon_collection": [{"name": "app", "func": "vf.checks.c06.append_arg",
-                               "arguments": {"lst": [1.0, 2.0], "k": 1.0 if k is None else k,
+                               "arguments": {"lst": [1.0, 2.0] if lst is None else list(lst), "k": 1.0 if k is None else k,
                                              "cfg": {"layers": [{"level": 1.0, "hist": []}, {"level": 2.0, "hist": [0.5]}]}}}],
         "charge_generation": [{"name": "wc", "func": "vf.probes.writer2",
                                "arguments": {"plan": {"*": ["charge"]}, "seed": case["seed"]}}],
         "charge_collection": [{"name": "wp", "func": "vf.probes.writer2",
                                "arguments": {"plan": {"*": ["pixel+"]}, "seed": case["seed"] + 1}}],
         "charge_measurement": [{"name": "cnt", "func": "vf.checks.c06.counter", "arguments": {}}],
-        "readout_electronics": [{"name": "wi", "func": "vf.probes.writer2",
-                                 "arguments": {"plan": {"*": ["image"]}, "seed": case["seed"] + 2}}],
+        "readout_electronics": [{"name": "wi", "func": "vf.checks.c06.adc_image", "arguments": {"seed": case["seed"] + 2}}],
     }
     if case["persistence"]:
         pspec["charge_collection"].append({
@@ -126,14 +143,18 @@ def make_preloaded_detector(case, temperature=None):
     return detector
 
 
-def standalone(case, k, temperature):
+def standalone(case, k, temperature, lst=None):
+    """'temperature' is the value of the case's second swept key (temperature or ADC resolution), or None."""
     import pyxel
     from pyxel.exposure import Exposure, Readout
     det = make_preloaded_detector(case, temperature=None)
     if temperature is not None:
-        det.environment.temperature = temperature
+        if case.get("second", "temperature") == "adc_bit_resolution":
+            det.characteristics.adc_bit_resolution = int(temperature)
+        else:
+            det.environment.temperature = temperature
     tree = pyxel.run_mode(mode=Exposure(readout=Readout(times=times_of(case), non_destructive=case["non_destructive"])),
-                          detector=det, pipeline=build.make_pipeline(pipeline_spec(case, k=k)),
+                          detector=det, pipeline=build.make_pipeline(pipeline_spec(case, k=k, lst=lst)),
                           with_inherited_coords=True)
     return tree["/bucket"].to_dataset()
 
@@ -221,6 +242,27 @@ def sequential_list_case(rec, index, case):
             rec.violation("C06:seq:entry-differs-from-standalone:sequential-mode-list-argument",
                           f"sequential run #{j} (k={k}, list at its configured value): {d}", case, index)
             return
+    # history: the user edits the configuration and runs the SAME observation object again -- the runs that vary
+    # the list must now be standalone exposures of the edited configuration (k at its new configured value)
+    new_k = 2.75
+    pipe.photon_collection.app.arguments["k"] = new_k
+    try:
+        ds2 = pyxel.run_mode(mode=obs, detector=detector, pipeline=pipe, with_inherited_coords=True)["/bucket"].to_dataset()
+    except Exception as exc:  # noqa: BLE001
+        rec.violation("C06:seq:second-call-on-same-observation:run-failed", f"{type(exc).__name__}: {exc}", case, index)
+        return
+    rec.count("second_calls_after_config_edit")
+    for j, lst in enumerate(lists):
+        got = ds2.isel(id=len(ks) + j)
+        ref = standalone(case, new_k, None, lst=lst)
+        rec.count("entries_vs_standalone")
+        d = same_entry(got, ref)
+        if d:
+            rec.violation("C06:seq:second-call-on-same-observation:entry-differs-from-standalone",
+                          f"after editing the configured k to {new_k} and running the same Observation object again, run "
+                          f"#{len(ks) + j} (list={lst}, k at its configured value) is not the standalone exposure of the "
+                          f"edited configuration: {d}", case, index)
+            return
 
 
 def observe(case, values, temps, dask, detector=None, pipe=None, readout=None):
@@ -232,7 +274,7 @@ def observe(case, values, temps, dask, detector=None, pipe=None, readout=None):
     readout = readout or Readout(times=times_of(case), non_destructive=case["non_destructive"])
     params = [ParameterValues(key="pipeline.photon_collection.app.arguments.k", values=list(values))]
     if temps:
-        params.append(ParameterValues(key="detector.environment.temperature", values=list(temps)))
+        params.append(ParameterValues(key=SECOND[case.get("second", "temperature")], values=list(temps)))
     obs = Observation(parameters=params, readout=readout, with_dask=dask)
     tree = pyxel.run_mode(mode=obs, detector=detector, pipeline=pipe, with_inherited_coords=True)
     ds = tree["/bucket"].to_dataset()
@@ -244,11 +286,11 @@ def observe(case, values, temps, dask, detector=None, pipe=None, readout=None):
 BUCKETS = ("photon", "charge", "pixel", "signal", "image")
 
 
-def entries(ds, with_temp):
-    names = ["k"] + (["temperature"] if with_temp else [])
+def entries(ds, with_temp, second="temperature"):
+    names = ["k"] + ([second] if with_temp else [])
     out = {}
     for sel, assignment, sub in c05.resolve_positions(ds, names):
-        key = (assignment["k"], assignment.get("temperature"))
+        key = (assignment["k"], assignment.get(second))
         out[key] = sub
     return out
 
@@ -264,6 +306,23 @@ def same_entry(a, b):
             if not np.array_equal(va.astype(float), vb.astype(float), equal_nan=True):
                 return f"'{name}' values differ (max abs diff {float(np.nanmax(np.abs(va.astype(float) - vb.astype(float))))})"
     return None
+
+
+WRAP_KEY = "C06:dask:type-changing-sweep:image-cast-to-dtype-of-metadata-run"
+
+
+def image_wrap_explained(sub, ref):
+    """The entry's image is the standalone image cast (wrapped) into a narrower unsigned type, or is that image."""
+    if "image" not in sub or "image" not in ref:
+        return False
+    g, r = np.asarray(sub["image"].values), np.asarray(ref["image"].values)
+    if g.shape != r.shape:
+        return False
+    if np.array_equal(g.astype(float), r.astype(float)):
+        return True
+    if g.dtype.kind != "u" or r.dtype.kind != "u" or g.dtype.itemsize >= r.dtype.itemsize:
+        return False
+    return bool(np.array_equal(g, r.astype(g.dtype)))
 
 
 def readout_sweep_case(rec, index, case):
@@ -352,12 +411,13 @@ def run_case(rec, index, case):
         calibration_case(rec, index, dict(case, n_steps=1, non_destructive=False))
     if case["dask"] and index % 3 == 0:
         readout_sweep_case(rec, index, case)
-    sig = (case["kind"], case["persistence"], case["n_steps"], case["values"], case["temps"],
+    sig = (case["kind"], case["persistence"], case["n_steps"], case["values"], case["second"], case["temps"],
            case["non_destructive"], case["preload"], case["dask"])
     tag = "dask" if case["dask"] else "seq"
     rec.count("persistence_cases", int(case["persistence"]))
     rec.count("preloaded_cases", int(case["preload"]))
     rec.count("dask_cases", int(case["dask"]))
+    rec.count("type_changing_sweeps_dask" if case["dask"] else "type_changing_sweeps_seq", int(case["second"] == "adc_bit_resolution"))
     # ---- (1) the caller's objects keep their settings and contents
     detector = make_preloaded_detector(case)
     from pyxel.exposure import Readout
@@ -381,7 +441,15 @@ def run_case(rec, index, case):
         rec.violation(f"C06:{tag}:caller-objects-changed:{'+'.join(where)[:80]}",
                       f"{len(changed)} leaves of the caller's objects changed: {changed[:6]}", case, index)
     # ---- (2) every entry equals an independently built standalone exposure
-    ents = entries(ds, bool(case["temps"]))
+    type_sweep_dask = bool(case["dask"] and case["second"] == "adc_bit_resolution" and case["temps"])
+
+    def wrap_class(key, a, b, d):
+        """both sides of an order/subset pair are the standalone image, possibly cast into a narrower type"""
+        if not (type_sweep_dask and d.startswith("'image' values differ")):
+            return False
+        ref = standalone(case, key[0], key[1])
+        return image_wrap_explained(a, ref) and image_wrap_explained(b, ref)
+    ents = entries(ds, bool(case["temps"]), case["second"])
     want = [(float(k), (float(t) if t is not None else None)) for k in case["values"] for t in (case["temps"] or [None])]
     if sorted(ents, key=str) != sorted(want, key=str):
         rec.violation(f"C06:{tag}:entries-differ-from-request", f"labels {sorted(ents, key=str)} vs requested {sorted(want, key=str)}", case, index)
@@ -392,30 +460,39 @@ def run_case(rec, index, case):
         rec.count("standalone_exposures")
         rec.count("entries_vs_standalone")
         d = same_entry(ents[(k, t)], ref)
-        if d:
+        if d and type_sweep_dask and d.startswith("'image' values differ") and image_wrap_explained(ents[(k, t)], ref):
+            # (same_entry names the first differing bucket and 'image' is the last one: the others are equal)
+            rec.violation(WRAP_KEY, f"run k={k}, {case['second']}={t}: the image of the parallel run is the standalone image "
+                          f"cast to {np.asarray(ents[(k, t)]['image'].values).dtype} (the type the first run produced); "
+                          f"standalone type {np.asarray(ref['image'].values).dtype}", case, index)
+        elif d:
             bucket = d.split("'")[1] if "'" in d else "?"
             rec.violation(f"C06:{tag}:entry-differs-from-standalone:{bucket}",
-                          f"run k={k}, temperature={t}: {d} -- the run was influenced by another run or by shared state", case, index)
+                          f"run k={k}, {case['second']}={t}: {d} -- the run was influenced by another run or by shared state", case, index)
     # ---- (3) order / subset independence
     rev = list(reversed(case["values"]))
     ds_r, _, _, _ = observe(case, rev, case["temps"], case["dask"])
     rec.count("observations")
     rec.count("permutation_pairs")
-    ents_r = entries(ds_r, bool(case["temps"]))
+    ents_r = entries(ds_r, bool(case["temps"]), case["second"])
     for key, sub in ents.items():
         if key in ents_r:
             d = same_entry(sub, ents_r[key])
-            if d:
+            if d and wrap_class(key, sub, ents_r[key], d):
+                rec.violation(WRAP_KEY, f"label {key}: {d} after reversing the value list (another first run, another image type)", case, index)
+            elif d:
                 rec.violation(f"C06:{tag}:entry-depends-on-run-order", f"label {key}: {d} after reversing the value list", case, index)
     sub_values = case["values"][1:]
     ds_s, _, _, _ = observe(case, sub_values, case["temps"], case["dask"])
     rec.count("observations")
     rec.count("subset_pairs")
-    ents_s = entries(ds_s, bool(case["temps"]))
+    ents_s = entries(ds_s, bool(case["temps"]), case["second"])
     for key, sub in ents_s.items():
         if key in ents:
             d = same_entry(sub, ents[key])
-            if d:
+            if d and wrap_class(key, sub, ents[key], d):
+                rec.violation(WRAP_KEY, f"label {key}: {d} after removing the first run (another first run, another image type)", case, index)
+            elif d:
                 rec.violation(f"C06:{tag}:entry-depends-on-other-runs", f"label {key}: {d} after removing the first run", case, index)
     rec.observe("detectors", case["kind"])
     rec.case(sig, True, sample=case)
